@@ -33,7 +33,8 @@ QUICK_N = 40
 SCENARIO_TIMEOUT = 420
 PROBES = ["fresh_interpreter_ok", "schedules_compared", "permutations_compared", "protein_level", "sklearn_learner", "default_model", "best_ranked_rows_are_decoys",
           "order_sensitive_learner", "multi_file", "parquet", "subsampled", "subset_proteins_in_fasta",
-          "switches>0", "folds4_all_24_perms", "tied_scores_at_every_level", "confidence_rng_left_at_default"]
+          "switches>0", "folds4_all_24_perms", "tied_scores_at_every_level", "confidence_rng_left_at_default",
+          "target_only_fasta", "decoy_peptide_with_two_candidate_targets", "through_command_line"]
 RULE = (
     "Each scenario (seeded data + FASTA whose digest yields the table's peptides, learner in {OrderLDA, RecordingLDA, "
     "LinearSVC, PercolatorModel}, folds 2-4, seed, chunk knobs) is executed as a history: base run; repeat in the same "
@@ -96,9 +97,17 @@ def make_scenario(seed):
     for _ in range(3):
         w = rng.choice([2, 3, 4, 8])
         scheds.append({"max_workers": w, "sched": world.gen_sched(rng, w, est_steps=6000)})
-    return {"property": PROPERTY, "seed": seed, "data": dp, "cfg": cfg, "knobs": kn, "format": fmt,
-            "row_group": rng.choice([None, 11, 64]) if fmt == "parquet" else None,
-            "fasta_seed": rng.getrandbits(16), "hash_seed": rng.randint(1, 4_000_000_000), "scheds": scheds}
+    scn = {"property": PROPERTY, "seed": seed, "data": dp, "cfg": cfg, "knobs": kn, "format": fmt,
+           "row_group": rng.choice([None, 11, 64]) if fmt == "parquet" else None,
+           "fasta_seed": rng.getrandbits(16), "hash_seed": rng.randint(1, 4_000_000_000), "scheds": scheds}
+    r2 = random.Random(f"c08-ext|{seed}")
+    # a protein database without decoy entries (the supported "less ideal" case): decoy peptides are then paired with
+    # target peptides of equal composition, so the table's peptides are renamed to make such pairs exist
+    scn["fasta_mode"] = "target_only" if r2.random() < 0.3 else "with_decoys"
+    # the same analysis through the command line entry point (text input, scores as brew returns them)
+    if fmt == "pin" and cfg.get("quantise_scores") is None and r2.random() < 0.6:
+        cfg["via_cli"] = True
+    return scn
 
 
 def scenarios(tier, batch_seed):
@@ -146,13 +155,22 @@ def _digests(res, with_files=True):
 
 def execute(scn, workdir, name, max_workers=1, sched=None, models_in=None, stop_after=None):
     tables = P.build_tables(scn["data"])
+    target_only = scn.get("fasta_mode") == "target_only"
+    if target_only:
+        tables = P.make_isobaric(tables, scn["fasta_seed"])
     cfg = dict(scn["cfg"])
     cfg["max_workers"] = max_workers
+    if models_in is not None:
+        cfg["via_cli"] = False  # models are handed back through the Python API
     root = Path(workdir) / name
     os.makedirs(root, exist_ok=True)
+    # the ambient state of the process-global generators differs from execution to execution (it is whatever earlier
+    # work left behind); a fixed seed has to make the analysis independent of it
+    np.random.seed(world._ENTROPY.getrandbits(32))
+    random.seed(world._ENTROPY.getrandbits(32))
     if stop_after is None:
         fa = root / "db.fasta"
-        datagen.write_fasta(fa, P.fasta_for_tables(tables, scn["fasta_seed"]))
+        datagen.write_fasta(fa, P.fasta_for_tables(tables, scn["fasta_seed"], with_decoys=not target_only))
         cfg["fasta_path"] = fa
         cfg["fasta_kw"] = {"missed_cleavages": 0}
     estimators.REGISTRY.clear()
@@ -201,9 +219,11 @@ def run_scenario(scn, workdir):
         "multi_file": int(scn["data"]["n_files"] > 1),
         "parquet": int(scn["format"] == "parquet"),
         "subsampled": int(scn["cfg"]["subset_max_train"] is not None),
+        "target_only_fasta": int(scn.get("fasta_mode") == "target_only"),
+        "through_command_line": int(bool(scn["cfg"].get("via_cli"))),
     }
     out = {"status": "ok", "probes": probes, "knobs": scn.get("knobs") or {}, "nontrivial": False,
-           "sample": {k: scn[k] for k in ("data", "cfg", "knobs", "format", "hash_seed", "scheds")}}
+           "sample": {k: scn.get(k) for k in ("data", "cfg", "knobs", "format", "hash_seed", "scheds", "fasta_mode")}}
 
     def viol(clause, msg, **sig):
         out.update(status="violation", clause=clause, message=msg, signature=sig)
@@ -211,7 +231,7 @@ def run_scenario(scn, workdir):
 
     base = execute(scn, workdir, "base")
     d0 = _digests(base)
-    out["digest"] = digest([scn["data"], scn["cfg"], scn["knobs"], scn["format"], scn["hash_seed"]])
+    out["digest"] = digest([scn["data"], scn["cfg"], scn["knobs"], scn["format"], scn["hash_seed"], scn.get("fasta_mode")])
     if "error" in d0:
         if not exc_is_domain(base.exc):
             return viol("run_failed", f"base run fails with an error that is not a data-domain error: {base.error}",
@@ -222,6 +242,18 @@ def run_scenario(scn, workdir):
     probes["tied_scores_at_every_level"] = int(scn["cfg"].get("quantise_scores") is not None)
     probes["confidence_rng_left_at_default"] = int(bool(scn["cfg"].get("conf_rng_default")))
     probes["subset_proteins_in_fasta"] = int(base.proteins is not None and any(", " in g for g in base.proteins.peptide_map.values()))
+    if scn.get("fasta_mode") == "target_only" and base.proteins is not None:
+        comp = {}
+        for pep in base.proteins.peptide_map:
+            comp["".join(sorted(pep))] = comp.get("".join(sorted(pep)), 0) + 1
+        tabs = P.make_isobaric(P.build_tables(scn["data"]), scn["fasta_seed"])
+        n2 = 0
+        for t in tabs:
+            pi = t["columns"].index("Peptide")
+            for r, is_t in zip(t["rows"], datagen.targets_of(t)):
+                if not is_t and comp.get("".join(sorted(r[pi])), 0) >= 2:
+                    n2 += 1
+        probes["decoy_peptide_with_two_candidate_targets"] = int(n2 > 0)
     # (a) repeat in the same process
     rep = execute(scn, workdir, "repeat")
     d1 = _digests(rep)
@@ -294,6 +326,10 @@ def run_scenario(scn, workdir):
 
 def shrink_candidates(scn):
     dp, cfg = scn["data"], scn["cfg"]
+    if cfg.get("via_cli"):
+        c = clone(scn); c["cfg"]["via_cli"] = False; yield c
+    if scn.get("fasta_mode") == "target_only":
+        c = clone(scn); c["fasta_mode"] = "with_decoys"; yield c
     if len(scn["scheds"]) > 1:
         for i in range(len(scn["scheds"])):
             c = clone(scn); c["scheds"] = [scn["scheds"][i]]; yield c
